@@ -76,7 +76,7 @@ func c07SortedRunOnce(f []string) string {
 func c07SortedGen(r *Rand, tier string) []string {
 	n := 150
 	if tier == "thorough" {
-		n = 8000
+		n = 5000
 	}
 	var out []string
 	for i := 0; i < n; i++ {
